@@ -45,7 +45,9 @@ impl Checker for C05 {
             if let Some(Ok(post)) = &ex.post {
                 let st = DevState::new(cfg.base.clone());
                 if let Ok(d0) = sess::decode_dev(&st, cfg, &[]) {
-                    if d0.free != post.free {
+                    // (a cluster-chained root directory that had to grow keeps its clusters: that is not lost capacity)
+                    let root_growth = post.dirs.first().map_or(0, |d| d.chain.len()) as u64 - d0.dirs.first().map_or(0, |d| d.chain.len()) as u64;
+                    if d0.free != post.free + root_growth {
                         v.push((
                             "C05/delete-all/capacity-shrunk".into(),
                             format!("tree is empty again but free clusters {} != initial {}", post.free, d0.free),
@@ -162,6 +164,40 @@ pub fn specs(tier: &str) -> Vec<ExpSpec> {
     for w in [12u8, 16, 32] {
         let c = crate::c10::mk(w, 2, 0, 0, 4, &format!("m{w}-zeropad-f4"));
         v.push(ExpSpec::new(c, alphabet(512), if th { 5 } else { 4 }));
+    }
+    // fixed root of 11 slots that one 9-slot and one 2-slot name fill exactly; information-sector counts just above the
+    // number of clusters; a cluster-chained root that has to grow and can
+    {
+        let r = DirRef::Root;
+        // (E1) fixed root of 11 slots: m x 100 (9 slots) + f (2 slots) fill it exactly
+        for ft in [FatType::Fat12, FatType::Fat16] {
+            let mut c = vol::tiny_with(ft, 7, 11);
+            c.name = format!("{}-exactfit", c.name);
+            v.push(ExpSpec::new(c, alphabet(512), 3));
+        }
+        // (E2) information-sector count one above the number of clusters (= the last valid cluster NUMBER)
+        {
+            let cfg = vol::tiny_with(FatType::Fat32, 7, 16);
+            let g = {
+                let st = DevState::new(cfg.base.clone());
+                harness::decoder::parse_raw(&st.read_vec(0, 512)).unwrap()
+            };
+            v.push(ExpSpec::new(patched(&cfg, "count-total+1", Some(g.max_cluster()), None), alphabet(512), 2));
+            v.push(ExpSpec::new(patched(&cfg, "count-total+2", Some(g.max_cluster() + 1), None), alphabet(512), 2));
+        }
+        // (E3) cluster-chained directory that has to grow and can: root filled to 15 of 16 slots by the prefix,
+        // two free clusters (one for the new directory, one for the root)
+        {
+            let mut c = vol::tiny_low(FatType::Fat32, 2, 16);
+            c.name = format!("{}-rootgrow", c.name);
+            let prefix = vec![
+                Op::CreateFile { base: r, path: "h".into(), keep: None },
+                Op::CreateFile { base: r, path: "m".repeat(100), keep: None },
+                Op::CreateFile { base: r, path: "f".into(), keep: None },
+                Op::CreateFile { base: r, path: "g".into(), keep: None },
+            ];
+            v.push(ExpSpec::new(c, alphabet(512), 3).with_prefix(prefix));
+        }
     }
     // FAT32 whose entries all carry reserved top bits (0xA), free count unknown: the recount has to mask them
     {
